@@ -284,6 +284,17 @@ func c12ResolveMore(ru *fw.Rule, p *fw.Program) {
 	} else {
 		a := newC12AP()
 		k, l := "as[int](P0)", "len(F0.Compound.Children)"
+		// the key may come out of a converter answering (index, isNumber) - which numbers it accepts is C08.iface Has:numbers
+		fw.EachInstr(cl, func(ins ssa.Instruction) {
+			if cc, ok := ins.(*ssa.Call); ok && cc.Common().StaticCallee() != nil && len(cc.Common().Args) == 1 && cc.Common().Args[0] == ssa.Value(cl.Params[0]) {
+				if res := cc.Common().Signature().Results(); res.Len() == 2 && types.Identical(res.At(0).Type(), types.Typ[types.Int]) && types.Identical(res.At(1).Type(), types.Typ[types.Bool]) {
+					cal := cc.Common().StaticCallee()
+					if cal.Pkg != nil {
+						k = strings.TrimPrefix(cal.Pkg.Pkg.Path(), "github.com/wader/fq/") + "." + cal.Name() + "(P0)#0"
+					}
+				}
+			}
+		})
 		nTrue, bad := 0, ""
 		for _, c := range c12ReturnCases(cl, a) {
 			lower := c.cmps["0<="+k] || c.cmps["-1<"+k]
